@@ -50,7 +50,11 @@ def case(rng, kind=None, choices=None, n=None):
         for t in range(n):
             ops += ["t%d build res=a dir=in" % t, "t%d exit err=%d" % (t, rng.choice([0, 0, 1]))]
     elif kind == "c":
-        ops += trip() + ["adv ms=%d" % rng.choice([0, 500, 999])]
+        # the setup's completions take 1 ms each, the k-th opens the breaker (k from the rule): 995+k ms after the setup the clock
+        # stands one millisecond short of the retry deadline, 996+k ms after it exactly on it (seed C16-f: probe 1 ms early)
+        r = dict(x.split("=") for x in ops[2].split()[1:])
+        k = max(int(r["thr"]), 1) if r["strat"] == "c" else int(r["minreq"])
+        ops += trip() + ["adv ms=%d" % rng.choice([0, 500, 999, 995 + k, 995 + k, 996 + k])]
         for t in range(n):
             if t == n - 1 and rng.random() < 0.6:
                 ops.append("t%d adv ms=%d" % (t, rng.choice([1, 200, 1100])))
